@@ -19,6 +19,9 @@
 //   - The session quorum is PrevQuorum ∪ Next.Shareholders().  Contexts come from
 //     cfg.Contexts (cloned before use) or, when nil, from the real session setup driven by
 //     verif/harness/internal/drive/session with tape labels label+".s".
+//   - PrevShards[id] is handed to NewParticipant for EVERY party that has an entry.  The members
+//     of PrevQuorum need theirs; a continuing holder outside the driving quorum may pass the shard
+//     it holds or nothing (nil) — both are legal uses of the constructor.
 //   - Every party has its own recording drive.Tape over the stream
 //     vh.NewRng(cfg.Seed, cfg.Prop, "tape/"+label, int(id)); label = cfg.Labels[id],
 //     default "a".  Two runs that differ only in one party's label differ only in that
@@ -74,7 +77,7 @@ type Config[G algebra.PrimeGroupElement[G, S], S algebra.PrimeFieldElement[S]] s
 	Labels     map[sharing.ID]string // tape label per party, default "a"
 	Hook       drive.Hook            // nil = honest delivery
 	Group      algebra.PrimeGroup[G, S]
-	PrevShards map[sharing.ID]*mpc.BaseShard[G, S] // shards of the previous epoch (only those of PrevQuorum are used)
+	PrevShards map[sharing.ID]*mpc.BaseShard[G, S] // what each party passes to NewParticipant as its previous shard: required for PrevQuorum, optional (shard or absent = nil) for the others
 	PrevQuorum []sharing.ID                        // the qualified set of previous holders driving the step
 	Next       accessstructures.Monotone           // next access structure (its shareholders are the next holders)
 	Anchor     sharing.ID                          // WithTrustedAnchorID for every party; 0 = none
@@ -198,9 +201,10 @@ func RunFull[G algebra.PrimeGroupElement[G, S], S algebra.PrimeFieldElement[S]](
 				return fmt.Errorf("no session context for party %d", uint64(id))
 			}
 			var shard *mpc.BaseShard[G, S]
-			if isPrev[id] {
-				shard = cfg.PrevShards[id]
-			}
+			// a driving previous holder must pass its shard; a party outside PrevQuorum may legally pass
+			// the shard it still holds or nil (NewParticipant ignores neither): the caller decides by
+			// what it puts into PrevShards
+			shard = cfg.PrevShards[id]
 			var opts []rredist.Option
 			if cfg.Anchor != 0 {
 				opts = append(opts, rredist.WithTrustedAnchorID(cfg.Anchor))
